@@ -122,10 +122,16 @@ def lemma_handle_new(ctx):
             continue
         if not is_ok(p.ret):
             # refusal without a failed call is fine only for aliasing destinations (the fix's refusal path)
-            ok_refuse, _ = eng.valid(p.pc, p.ghost["alias"])
-            (ctx.passed if ok_refuse else ctx.fail)("CopyHandle::new: Err without a failed call only to refuse a self-copy", str(names))
+            dangling = z3.And(fs_fact("lexists", "to_path"), z3.Not(fs_fact("exists", "to_path")))
+            ok_refuse, _ = eng.valid(p.pc + fs_axioms("to_path"), z3.Or(p.ghost["alias"], dangling))
+            (ctx.passed if ok_refuse else ctx.fail)("CopyHandle::new: Err without a failed call only to refuse a self-copy (or a dangling link at the destination)", str(names))
             continue
         # ---- success path
+        if creates:
+            # File::create follows a dangling symbolic link and creates its target -- somewhere else than the destination
+            ctx.lemma(eng, "C02/C08: the destination is never created through a dangling symbolic link (the entry exists, its target does not)",
+                      p.pc + fs_axioms("to_path"), z3.Not(z3.And(fs_fact("lexists", "to_path"), z3.Not(fs_fact("exists", "to_path")))),
+                      key="new:created-through-dangling-link")
         if len(creates) != 1 or nm(creates[0]) != "to_path":
             ctx.fail("C01: the destination path is created/truncated exactly once", str(names))
             continue
